@@ -25,6 +25,8 @@ pub enum Status {
     K,
     /// parked in `verif::block_on`
     B,
+    /// parked at `Site::Unprotected`: a per-key mutex is released, or a waiter woken, outside the global lock
+    U,
     /// finished
     D,
     /// has the turn (only visible when a step hangs)
@@ -136,6 +138,7 @@ impl Hook for WorkerHook {
             match site {
                 Site::Global => Status::G,
                 Site::Key => Status::K,
+                Site::Unprotected => Status::U,
             },
             None,
         );
@@ -265,7 +268,10 @@ fn worker(shared: Arc<Shared>, t: usize, cont: Arc<dyn Container + Send + Sync>,
     lockable::verif::install(Some(hook));
     take_panic();
     let mut slots: Vec<Slot> = Vec::new();
-    let r = catch_unwind(AssertUnwindSafe(|| run_program(&prog, &mut slots, &*cont, kind, t)));
+    // like the main thread: a thread driven by a `futures` executor (see main.rs)
+    let r = catch_unwind(AssertUnwindSafe(|| {
+        futures::executor::block_on(async { run_program(&prog, &mut slots, &*cont, kind, t) })
+    }));
     lockable::verif::install(None);
     if r.is_err() {
         let (msg, loc) = take_panic().unwrap_or_default();
@@ -371,6 +377,7 @@ impl SchedCase {
             Status::S => 'S',
             Status::G => 'G',
             Status::K => 'K',
+            Status::U => 'U',
             Status::D => 'D',
             Status::R => 'R',
             Status::B => {
